@@ -65,6 +65,22 @@ def cases(tier, seed):
     for n in range(N + 1):
         for outer in ("an", "set_of", "the_outer"):
             out.append(("nested_the", n, outer))
+    # the same quantified query evaluated again: after j steps of a first evaluation that is then closed, dropped or
+    # left open, a second evaluation must follow the reference automaton from its initial state (the count of an
+    # evaluation is that evaluation's own), and the first one - if left open - must then continue as if alone
+    RN = min(N, b.get("rerun_n_max", N))
+    rcons = [c for c in cons if c[0] in ("none", "the") or max(c[1:]) <= RN + 1]
+    for shape in ("entity", "filtered", "set_of", "product"):
+        for n in range(RN + 1):
+            if shape == "product" and n not in (0, 1, 2, 3, 4, 6, 9):
+                continue
+            for c in rcons:
+                if c[0] == "the":
+                    out.append(("rerun", shape, n, c, 0, "twice"))
+                    continue
+                for j in range(0, n + 2):
+                    for how in ("close", "drop", "open"):
+                        out.append(("rerun", shape, n, c, j, how))
     # constructions that must be rejected / accepted
     for k in range(-3, 3):
         for kind in ("exactly", "atleast", "atmost"):
@@ -204,6 +220,83 @@ def observed_trace(shape, n, c):
     return trace, got, expected
 
 
+def _drive(it, unwrap, steps, F):
+    """Advance an evaluation by at most `steps` steps; returns (trace, results, finished)."""
+    trace, got = [], []
+    for _ in range(steps):
+        try:
+            r = next(it)
+            got.append(unwrap(r))
+            trace.append(("yield",))
+        except StopIteration:
+            trace.append(("stop",))
+            return trace, got, True
+        except Exception as e:
+            trace.append(("raise", type(e).__name__))
+            return trace, got, True
+    return trace, got, False
+
+
+def run_rerun(case, res):
+    from krrood.entity_query_language import failures as F
+    _, shape, n, c, j, how = case
+    query, expected, unwrap = build_query(shape, n, c)
+    ids = lambda v: tuple(id(p) for p in v) if isinstance(v, tuple) else id(v)
+    strip = lambda tr: [(t[0],) if t[0] == "yield" else t for t in tr]
+    res.features = ["shape:rerun:" + shape, "rerun:" + how]
+    if c[0] == "the":
+        outs = []
+        for _ in range(3):
+            try:
+                outs.append(("return", ids(unwrap(query.evaluate()))))
+            except Exception as e:
+                outs.append(("raise", type(e).__name__))
+        exp = ("return", ids(expected[0])) if n == 1 else ("raise", "NoSolutionFound" if n == 0 else "MultipleSolutionFound")
+        res.transitions = 3
+        res.states = [(case, i) for i in range(3)]
+        res.outcome_key = ("rerun-the", exp[0], exp[1] if exp[0] == "raise" else "")
+        res.nontrivial_key = case
+        if any(o != exp for o in outs):
+            res.failures.append(Failure("rerun-the", f"{case}: three evaluations of one the(...) gave {[o[:2] if o[0]=='raise' else o[0] for o in outs]}, "
+                                                     f"expected {exp[0]} {exp[1] if exp[0]=='raise' else ''} every time"))
+        return res
+    ref = strip(reference_trace(n, c))
+    it1 = iter(query.evaluate())
+    t1, g1, fin1 = _drive(it1, unwrap, j, F)
+    if t1 != ref[:len(t1)]:
+        res.failures.append(Failure("trace-mismatch", f"{case}: first evaluation observed {t1}, expected a prefix of {ref}"))
+        return res
+    if how == "close":
+        it1.close() if hasattr(it1, "close") else None
+    elif how == "drop":
+        del it1
+    t2, g2, fin2 = _drive(iter(query.evaluate()), unwrap, n + 3, F)
+    res.transitions = len(t1) + len(t2)
+    res.states = [(case, i) for i in range(res.transitions + 1)]
+    res.outcome_key = ("rerun", how, tuple(t2[-1]) if t2 else (), fin1)
+    if j and not fin1:
+        res.nontrivial_key = case
+    res.features.append("rerun-end:" + (t2[-1][0] if t2 else "none"))
+    if t2 != ref:
+        res.failures.append(Failure("rerun-trace-mismatch", f"{case}: after {j} steps of a first evaluation ({how}) the second "
+                                                            f"evaluation observed {t2}, expected {ref}"))
+        return res
+    exp_ids = [ids(e) for e in expected]
+    if sorted(map(ids, g2)) != sorted(exp_ids[:len(g2)]) and not (set(map(ids, g2)) <= set(exp_ids) and len(set(map(ids, g2))) == len(g2)):
+        res.failures.append(Failure("wrong-solutions", f"{case}: second evaluation yielded {g2}"))
+    if how == "open" and not fin1:
+        t3, g3, _ = _drive(it1, unwrap, n + 3, F)
+        res.transitions += len(t3)
+        if t1 + t3 != ref:
+            res.failures.append(Failure("rerun-first-continues-wrong", f"{case}: the first evaluation, continued after a complete second "
+                                                                       f"one, observed {t1 + t3}, expected {ref}"))
+        else:
+            allg = list(map(ids, g1 + g3))
+            if len(set(allg)) != len(allg) or not set(allg) <= set(exp_ids):
+                res.failures.append(Failure("wrong-solutions", f"{case}: first evaluation yielded {g1 + g3}"))
+    return res
+
+
 def run_nested_the(case, res):
     from krrood.entity_query_language import failures as F
     from krrood.entity_query_language.entity import entity, set_of, let
@@ -250,6 +343,8 @@ def run_case(case):
         return run_construct(case, res)
     if case[0] == "nested_the":
         return run_nested_the(case, res)
+    if case[0] == "rerun":
+        return run_rerun(case, res)
     _, shape, n, c = case
     lo, hi = bounds_of(c)
     try:
